@@ -379,6 +379,31 @@ impl<'a, D: Dialect> RunProgramContext<'a, D> {
         }
     }
 
+    // true if the softfork extension argument is a valid extension number
+    // that is only rejected because of its non-canonical encoding (i.e.
+    // because CANONICAL_INTS is set). That's a failure in every mode. It must
+    // not be mistaken for a softfork we don't understand, or setting
+    // CANONICAL_INTS could turn a failing program into a successful one.
+    fn softfork_extension_not_canonical(&self, args: NodePtr) -> bool {
+        let flags = self.dialect.flags();
+        if !flags.contains(ClvmFlags::CANONICAL_INTS) {
+            return false;
+        }
+        let Ok([_cost, extension, _program, _env]) =
+            get_args::<4>(self.allocator, args, "softfork")
+        else {
+            return false;
+        };
+        uint_atom::<4>(self.allocator, extension, "softfork", flags).is_err()
+            && uint_atom::<4>(
+                self.allocator,
+                extension,
+                "softfork",
+                flags - ClvmFlags::CANONICAL_INTS,
+            )
+            .is_ok()
+    }
+
     fn apply_op(&mut self, current_cost: Cost, max_cost: Cost) -> Result<Cost> {
         let operand_list = self.pop()?;
         let operator = self.pop()?;
@@ -412,7 +437,9 @@ impl<'a, D: Dialect> RunProgramContext<'a, D> {
             let (ext, prg, env) = match self.parse_softfork_arguments(operand_list) {
                 Ok(ret_values) => ret_values,
                 Err(err) => {
-                    if self.dialect.allow_unknown_ops() {
+                    if self.dialect.allow_unknown_ops()
+                        && !self.softfork_extension_not_canonical(operand_list)
+                    {
                         // In this case, we encountered a softfork invocation
                         // that doesn't pass the correct arguments.
                         // if we're in consensus mode, we have to accept this as
